@@ -8,7 +8,8 @@
 //!   `M` = result of `expand_calibrations_with_source_map()`: `(ok (instr…) (entry…))` with the top-level
 //!   source map entries `(src (u target))` / `(src (r start stop))` | `(recursive instr)` | `(error)`.
 //! * `(expand (instr…) instr (prev…))` — `Calibrations::expand(instr, prev)` on the calibrations of the
-//!   program built from the list: `(ok (none))` | `(ok (some (instr…)))` | `(recursive instr)` | `(error)`.
+//!   program built from the list: `(ok (none) S)` | `(ok (some (instr…)) S)` | `(recursive instr S)` | `(error S)`,
+//!   `S` = `same` iff `Calibrations::expand_with_detail(instr, prev)` gives the same instructions / error.
 //!
 //! The generators never build a calibration set whose expansion grows without bound (see
 //! `harness/src/calgen.rs`): that input aborts the process (property C18 runs it in a child process).
@@ -57,10 +58,21 @@ fn run_prog(instrs: &[Instruction]) -> Sexp {
 
 fn run_expand(instrs: &[Instruction], i: &Instruction, prev: &[Instruction]) -> Sexp {
     let p = Program::from_instructions(instrs.to_vec());
-    match p.calibrations.expand(i, prev) {
-        Ok(None) => tagged("ok", vec![tagged("none", vec![])]),
-        Ok(Some(v)) => tagged("ok", vec![tagged("some", vec![instructions_to_sexp(&v)])]),
-        Err(e) => err_sexp(&e),
+    // `expand` runs `expand_inner` WITHOUT building a source map, `expand_with_detail` with: the two branches of
+    // `recursively_expand_inner` must produce the same instructions ("same" / "differs")
+    let plain = p.calibrations.expand(i, prev);
+    let detailed = p.calibrations.expand_with_detail(i, prev).map(|o| o.map(|x| x.new_instructions));
+    let same = atom(if plain == detailed { "same" } else { "differs" });
+    match plain {
+        Ok(None) => tagged("ok", vec![tagged("none", vec![]), same]),
+        Ok(Some(v)) => tagged("ok", vec![tagged("some", vec![instructions_to_sexp(&v)]), same]),
+        Err(e) => match err_sexp(&e) {
+            Sexp::List(mut v) => {
+                v.push(same);
+                Sexp::List(v)
+            }
+            other => other,
+        },
     }
 }
 
